@@ -820,6 +820,10 @@ func DrawNoiseWithAliases(rt *rapid.T) am.Noise {
 	if n.TypeAlias == nil {
 		n.FnAlias = rapid.IntRange(0, 2).Draw(rt, "n.fnalias") == 0
 	}
+	// named fixed and scalable vector types (`%$v0 = type <vscale x 4 x i32>`)
+	if !n.FnAlias {
+		n.VecAlias = rapid.IntRange(0, 2).Draw(rt, "n.vecalias") == 0
+	}
 	return n
 }
 
